@@ -41,6 +41,10 @@ def pred(sent, i):
     return core.next_class(c)
 
 
+DEEP_SIGMA = ['ID', 'REGEX', '/', '(', ')', '{', '}', 'if', 'while', 'for',
+              'function', ';', '=', '++', ',', 'return', 'NUM', '.', 'IDN']
+
+
 def main(tier, seed, replay=None):
     rep = Report('C05', 'model_checking', tier, seed)
     rep.assumptions = [
@@ -50,8 +54,16 @@ def main(tier, seed, replay=None):
     build_scratch()
     themes = gen.run_themes(THEMES, tier, rep, jobs=6, overrides={
         n: {'layer2': 'slash'} for n in THEMES})
-    for n in THEMES:
-        pass
+    # deep random derivations (tlc -simulate): slashes inside function
+    # bodies inside call / grouping / header parentheses
+    sr, deep = gen.simulate(4000 if tier == 'quick' else 60000, maxtok=18,
+                            maxnl=1, seed=seed + 7, sigma=DEEP_SIGMA,
+                            workers=4, layer2='slash')
+    rep.add_tlc(sr)
+    themes['deep'] = sorted((s for s in deep
+                             if any(t.cls in core.SLASHY for t in s.tokens)),
+                            key=lambda s: s.key())
+    rep.notes['deep_sentences'] = len(themes['deep'])
     rep.mark('generated')
     plain = [k for k in core.PLAIN_KINDS]
     brk = core.BREAK_KINDS
@@ -59,7 +71,7 @@ def main(tier, seed, replay=None):
     meta = []
     distinct = set()
     n = 0
-    for name in THEMES:
+    for name in THEMES + ['deep']:
         for s in themes[name]:
             idx = [t.idx for t in s.tokens if t.cls in core.SLASHY]
             if not idx:
@@ -91,8 +103,12 @@ def main(tier, seed, replay=None):
                                   gaps=gaps, brk=brk[(n + v) % len(brk)])
                 ds = core.dictated_slashes(s)
                 # SlashImpl.tla: <<token index, first, final, dictated>>
-                mod = [[s.tokens[m[0] - 1].start, m[1], m[2]]
-                       for m in (s.model or [])]
+                mod = []
+                for m in (s.model or []):
+                    if m[2] == 'div-after-function-declaration':
+                        mod.append([s.tokens[m[0] - 1].start, 'div', 'div'])
+                        break       # the rest is lexed differently anyway
+                    mod.append([s.tokens[m[0] - 1].start, m[1], m[2]])
                 work.append((text, spec_tree(s), ds, mod))
                 meta.append((s, text, kinds, [t.start for t in s.tokens]))
     res3 = impl.pmap(core.judge_with_model, work, chunk=400)
@@ -141,6 +157,15 @@ def main(tier, seed, replay=None):
         k = kinds.get(i, 'sp')
         sig = 'C05 slash pred=%s gap=%s expected=%s got=%s' % (
             pred(s, i), core.GAP_CLASS.get(k, k), want, got)
+        # the one named deviation (known finding): a regex that starts the
+        # statement after a function DECLARATION; everything from that
+        # slash on is lexed differently
+        first_bad = [j for j in idx if s.tokens[j].cls == 'REGEX' and j > 0
+                     and s.tokens[j - 1].cls == '}'
+                     and s.tokens[j - 1].owner is not None
+                     and s.tokens[j - 1].owner.kind == 'FuncDecl']
+        if first_bad and i >= first_bad[0]:
+            sig = 'C05 slash cause=regex-after-function-declaration'
         rep.violation(sig, 'parse(%r): the `/` after %s must be %s; got %s'
                       % (text, pred(s, i), want, r[1:] if r[0] != 'tree'
                          else r[2]),
